@@ -634,6 +634,36 @@ pub fn staged_renders(spec: &CfgSpec, html: &[u8], widths: &[(usize, StagedKind)
     })
 }
 
+/// Parse the document ONCE; then for every step build a render tree from that same DOM with the
+/// step's `build` configuration and render it with the step's `rend` configuration (which may
+/// be a different Config, even with another decorator).
+pub fn staged_shared_dom(html: &[u8], steps: &[(CfgSpec, CfgSpec, usize)]) -> Rend<Vec<Rend<String>>> {
+    guard(|| {
+        let dom = match config::plain().parse_html(html) {
+            Ok(d) => d,
+            Err(e) => return Rend::Err(format!("parse_html: {:?}", e)),
+        };
+        let mut out = vec![];
+        for (build, rend, w) in steps {
+            let tree: Rend<html2text::RenderTree> = guard(|| {
+                with_config!(build, c => match c.dom_to_render_tree(&dom) {
+                    Ok(t) => Rend::Ok(t),
+                    Err(e) => Rend::Err(format!("dom_to_render_tree: {:?}", e)),
+                })
+            });
+            let r = match tree {
+                Rend::Ok(t) => guard(|| with_config!(rend, c => from_result(c.render_to_string(t, *w)))),
+                Rend::TooNarrow => Rend::TooNarrow,
+                Rend::Err(e) => Rend::Err(e),
+                Rend::CssErr => Rend::CssErr,
+                Rend::Panic(p) => Rend::Panic(p),
+            };
+            out.push(r);
+        }
+        Rend::Ok(out)
+    })
+}
+
 fn flatten(r: Rend<Vec<Rend<String>>>) -> Rend<String> {
     match r {
         Rend::Ok(mut v) => v.pop().unwrap(),
